@@ -33,7 +33,13 @@ def phase_covariance(r, r0, L0):
     B1 = (2 ** (-5. / 6)) * gamma(11. / 6) / (numpy.pi ** (8. / 3))
     B2 = ((24. / 5) * gamma(6. / 5)) ** (5. / 6)
 
-    C = (((2 * numpy.pi * r) / L0) ** (5. / 6)) * kv(5. / 6, (2 * numpy.pi * r) / L0)
+    x = (2 * numpy.pi * r) / L0
+    with numpy.errstate(invalid="ignore"):
+        C = (x ** (5. / 6)) * kv(5. / 6, x)
+    # For a large outer scale the (single precision) argument of a zero
+    # separation underflows to 0, where the product 0 * inf has the finite
+    # limit 2^(-1/6) Gamma(5/6)
+    C = numpy.where(x == 0, 2 ** (-1. / 6) * gamma(5. / 6), C)
 
     cov = A * B1 * B2 * C
 
